@@ -10,6 +10,7 @@ import (
 	"fmt"
 	"net"
 	"os"
+	"path/filepath"
 	"sort"
 	"strings"
 	"testing"
@@ -29,6 +30,7 @@ type cfg struct {
 	publics         int
 	subs            int
 	bulk            bool
+	fileLog         int // >0: file-backed logger with MaxFileSize = fileLog bytes (log rotation in play); records are read back from all files
 	mapCap          int // >0: a real kernel subscriber_nat map with this capacity (a later write fails with E2BIG: fault injection)
 }
 
@@ -38,6 +40,7 @@ type block struct {
 }
 
 type sys struct {
+	logDir           string
 	kmap             *cebpf.Map
 	c                cfg
 	m                *nat.Manager
@@ -55,19 +58,31 @@ func newSys(c cfg) *sys {
 	if err != nil {
 		panic(err)
 	}
-	lg, err := nat.NewLogger(nat.LoggerConfig{Enabled: true, Format: nat.LogFormatJSON, BulkLogging: c.bulk, BufferSize: 50}, zap.NewNop())
+	lcfg := nat.LoggerConfig{Enabled: true, Format: nat.LogFormatJSON, BulkLogging: c.bulk, BufferSize: 50}
+	logDir := ""
+	if c.fileLog > 0 {
+		base := filepath.Join(report.Root(), ".work", "c10-logs")
+		os.MkdirAll(base, 0o755)
+		logDir, _ = os.MkdirTemp(base, "l")
+		lcfg.FilePath = filepath.Join(logDir, "nat.log")
+		lcfg.MaxFileSize = int64(c.fileLog)
+		lcfg.BufferSize = 1 // write through: every record crosses the rotation logic on its own
+	}
+	lg, err := nat.NewLogger(lcfg, zap.NewNop())
 	if err != nil {
 		panic(err)
 	}
 	buf := &bytes.Buffer{}
-	lg.VerifSetWriter(buf)
+	if c.fileLog == 0 {
+		lg.VerifSetWriter(buf)
+	}
 	m.SetLogger(lg)
 	for i := 0; i < c.publics; i++ {
 		if err := m.AddPublicIP(net.IPv4(203, 0, 113, byte(1+i))); err != nil {
 			panic(err)
 		}
 	}
-	st := &sys{c: c, m: m, lg: lg, buf: buf, ref: map[int]block{}}
+	st := &sys{c: c, m: m, lg: lg, buf: buf, ref: map[int]block{}, logDir: logDir}
 	if c.mapCap > 0 {
 		// the value size is what the control plane marshals (checked against the C declaration by C06)
 		km, err := cebpf.NewMap(&cebpf.MapSpec{Type: cebpf.Hash, KeySize: 4, ValueSize: uint32(binary.Size(nat.SubscriberNAT{})), MaxEntries: uint32(c.mapCap)})
@@ -201,6 +216,18 @@ func (s *sys) Check() []explore.Viol {
 	// N4: the log alone attributes every (public, port) to exactly the reference holder
 	s.lg.Flush()
 	s.lg.FlushPortBlocks()
+	if s.logDir != "" {
+		// read the records back from every file of the log directory: rotated files (oldest first), then the current one
+		s.lg.Stop()
+		names, _ := filepath.Glob(filepath.Join(s.logDir, "nat.log.*"))
+		sort.Strings(names)
+		names = append(names, filepath.Join(s.logDir, "nat.log"))
+		for _, n := range names {
+			b, _ := os.ReadFile(n)
+			s.buf.Write(b)
+		}
+		os.RemoveAll(s.logDir)
+	}
 	type rec struct {
 		EventType  string `json:"event_type"`
 		PrivateIP  string `json:"private_ip"`
@@ -273,17 +300,22 @@ func configs(thorough bool) []cfg {
 	var out []cfg
 	for _, bulk := range []bool{true, false} {
 		out = append(out,
-			cfg{"std-1ip", 1024, 65535, 1024, 1, subs, bulk, 0},
-			cfg{"nondividing-1ip", 1000, 1009, 3, 1, subs, bulk, 0},
-			cfg{"nondividing-2ip", 1000, 1009, 3, 2, subs, bulk, 0},
-			cfg{"edge65535-2ip", 65530, 65535, 2, 2, subs, bulk, 0},
-			cfg{"singleblock-3ip", 1024, 1031, 8, 3, subs, bulk, 0},
+			cfg{"std-1ip", 1024, 65535, 1024, 1, subs, bulk, 0, 0},
+			cfg{"nondividing-1ip", 1000, 1009, 3, 1, subs, bulk, 0, 0},
+			cfg{"nondividing-2ip", 1000, 1009, 3, 2, subs, bulk, 0, 0},
+			cfg{"edge65535-2ip", 65530, 65535, 2, 2, subs, bulk, 0, 0},
+			cfg{"singleblock-3ip", 1024, 1031, 8, 3, subs, bulk, 0, 0},
 		)
 	}
+	// file-backed logger with rotation: at most one rotation within the explored depth (700 bytes), and several (250 bytes)
+	out = append(out,
+		cfg{"nondividing-2ip file-log-rotate700", 1000, 1009, 3, 2, 3, true, 700, 0},
+		cfg{"nondividing-2ip file-log-rotate250", 1000, 1009, 3, 2, 3, false, 250, 0},
+	)
 	// fault dimension: the kernel map is full after 1 / 2 entries, so a later AllocateNAT fails at its map write
 	out = append(out,
-		cfg{"nondividing-2ip kernel-map-cap1", 1000, 1009, 3, 2, subs, true, 1},
-		cfg{"nondividing-1ip kernel-map-cap2", 1000, 1009, 3, 1, subs, false, 2},
+		cfg{"nondividing-2ip kernel-map-cap1", 1000, 1009, 3, 2, subs, true, 0, 1},
+		cfg{"nondividing-1ip kernel-map-cap2", 1000, 1009, 3, 1, subs, false, 0, 2},
 	)
 	return out
 }
